@@ -8,7 +8,7 @@ VARIABLE dummy
 TInit == TBaseInit /\ dummy = 0
 
 Rng(q) == {q[i] : i \in DOMAIN q}
-HomeClass(e) == IF e.home \in {"op", "derived", "state"} THEN "A" ELSE ""
+HomeClass(e) == IF e.home \in {"op", "derived", "state", "transition"} THEN "A" ELSE ""
 FirstPresent(tp, a, b) == CHOOSE i \in a..b : tp[i].p /\ \A j \in a..(i - 1) : ~tp[j].p
 LastPresent(tp, a, b) == CHOOSE i \in a..b : tp[i].p /\ \A j \in (i + 1)..b : ~tp[j].p
 StartOf(tp, r) == <<tp[FirstPresent(tp, r.a, r.b)].sl, tp[FirstPresent(tp, r.a, r.b)].sc>>
